@@ -20,7 +20,7 @@ func init() {
 			Property: "C07",
 			Rule: "for every script of a family (variables set before and after jumps, visited_count of every node shown in lines, option groups, a command that never completes, tracking: never nodes, a host-populated storer and a storer empty at creation, ends), every path of an original runner up to the save bound, every step of it as save point (Snapshot), optional host write, every continuation of the original up to a bound; " +
 				"every receiving runner (the original itself, or a fresh runner of the same script driven along every path up to a bound: fresh, mid-node, waiting for a choice, waiting for a command, ended; with optional host write), optional RestoreAt of a snapshot naming an unknown node first, then RestoreAt(snapshot), optional second runner restored from the same snapshot and stepped alternately, every continuation path up to a bound, optional second restore of the same snapshot; " +
-				"oracle on every transition: elements equal those of the reference interpreter restarted from its node-entry checkpoint; every snapshot value held is deep-equal to the frozen copy taken when it was made and to the model checkpoint (nil = empty map); a snapshot taken right after the restore equals the restored one; the unknown-node restore fails and leaves the reflective dump of runner and storer unchanged; " +
+				"oracle on every transition: elements and storer contents equal those of the reference interpreter restarted from its node-entry checkpoint; every snapshot value held is deep-equal to the frozen copy taken when it was made and to the model checkpoint (nil = empty map); a snapshot taken right after the restore equals the restored one; the unknown-node restore fails and leaves the reflective dump of runner and storer unchanged; " +
 				"a case is one (script, original path, save point, receiver state, continuation); non-trivial = the save point is after at least one jump or the receiver is not fresh",
 			StatesMean:  "(script, history of operations) prefixes visited on the real runners; transitions = real Next / Snapshot / RestoreAt calls compared with the model",
 			Assumptions: []string{"small-scope hypothesis on scripts and path lengths", "scripts of this family contain no failing statement and no random function"},
@@ -146,6 +146,30 @@ func (x *c07Runner) step(choice int) string {
 	if a, b := strings.Join(x.m.Log, ";"), strings.Join(x.log, ";"); a != b {
 		return fmt.Sprintf("%s: handler invocations expected [%s], got [%s]", x.name, a, b)
 	}
+	if d := x.storeDiff(x.m.Store); d != "" {
+		return fmt.Sprintf("%s: after Next(%d): %s", x.name, choice, d)
+	}
+	return ""
+}
+
+// storeDiff compares the contents of the runner's storer with the expected variables.
+func (x *c07Runner) storeDiff(want map[string]yc.Value) string {
+	got := x.st.GetValues()
+	for k, w := range want {
+		gv, ok := got[k]
+		if !ok {
+			return fmt.Sprintf("variable %s: expected %s, the storer has none", k, w)
+		}
+		if g, _ := yc.FromVar(&gv); !g.Equal(w) {
+			return fmt.Sprintf("variable %s: expected %s, the storer has %s", k, w, g)
+		}
+	}
+	for k, gv := range got {
+		if _, ok := want[k]; !ok {
+			g, _ := yc.FromVar(&gv)
+			return fmt.Sprintf("variable %s: the storer has %s, expected none", k, g)
+		}
+	}
 	return ""
 }
 
@@ -241,7 +265,10 @@ func (x *c07Runner) restore(s *c07Snap) string {
 	cp := s.cp
 	x.rest = &cp
 	x.prev = nil
-	// the handler log of a runner is not part of the dialogue state: keep both logs aligned
+	// the variables are part of the restored state: the storer holds exactly those of the checkpoint
+	if d := x.storeDiff(cp.Vars); d != "" {
+		return fmt.Sprintf("%s: right after RestoreAt: %s", x.name, d)
+	}
 	return ""
 }
 
